@@ -95,78 +95,13 @@ def run(prog: Program, ctx: Ctx) -> None:  # noqa: PLR0912,PLR0915
             shapes.add("full-form path object")
         else:
             shapes.add(f"other:{norm(v)}")
-    src = ast.unparse(lm.node)
-    handled = {"string"}
-    if "isinstance(filepath, list)" in src.replace("obj_dict['filepath']", "filepath") or "isinstance(" in src and "list" in src:
-        handled.add("list")
-    path_calls = [c for c in calls_in(lm.node) if dotted(c.func) == "Path"]
-    cfg = cfg_of(lm)
-    idx = node_index(lm)
-    none_guard = all(
-        any(cfg.dominated_by_fact(x, lambda a, t: (t and "is not None" in unparse(a)) or (not t and "is None" in unparse(a)) or (t and unparse(a) in ("filepath",)))
-            for x in idx.get(id(c), [])) or any(isinstance(p, (ast.ListComp, ast.GeneratorExp, ast.comprehension)) for p in _anc(c))
-        for c in path_calls)
-    if none_guard:
-        handled.add("null")
-    for sh in sorted(shapes - {"full-form path object"}):
-        ctx.ob("R1", f"Module|filepath-shape|{sh}", sh in handled, f"_load_module accepts a {sh} filepath" if sh in handled else
-               f"Module.as_dict writes a {sh} filepath but _load_module wraps it in Path() unconditionally (TypeError)", where(lm))
-
+    FILEPATH_SHAPES = sorted(shapes - {"full-form path object"})  # decided on behaviour below, once the decoder can be evaluated
     # ------------------------------------------------------------------ R2
     ctx.rule("R2", "every expression-typed field of the reloaded objects (decorator values, class bases, parameter annotations and defaults, "
                    "returns, attribute value and annotation) gets its scope re-attached by the decoder")
     ap = prog.function(f"{E}._attach_parent_to_exprs")
-    need = {"Class": {"decorators", "bases"}, "Function": {"decorators", "parameters.annotation", "parameters.default", "returns"},
-            "Attribute": {"value", "annotation"}}
-    # derive the Expr-typed direct fields from the constructors' annotations, so a new Expr field is noticed
-    for cname in need:
-        for fn in prog.cls(f"{M}.{cname}").methods.get("__init__", []):
-            for n in walk_no_nested(fn.node):
-                if isinstance(n, ast.AnnAssign) and isinstance(n.target, ast.Attribute) and dotted(n.target.value) == "self" and "Expr" in unparse(n.annotation) \
-                        and not n.target.attr.startswith("_") and n.target.attr not in ("overloads",):
-                    need[cname].add(n.target.attr)
-    objp = ap.params[0]
-    branches: dict[str, ast.If] = {}
-    for n in ast.walk(ap.node):
-        if isinstance(n, ast.If) and isinstance(n.test, ast.Call) and dotted(n.test.func) == "isinstance" and unparse(n.test.args[0]) == objp:
-            branches[unparse(n.test.args[1])] = n
-    for cname, fields in need.items():
-        br = branches.get(cname)
-        ctx.ob("R2", f"branch|{cname}", br is not None, f"_attach_parent_to_exprs has a branch for {cname}", where(ap))
-        if br is None:
-            continue
-        covered: set[str] = set()
-        for c in [c for s in br.body for c in ast.walk(s) if isinstance(c, ast.Call) and dotted(c.func) == "_attach_parent_to_expr"]:
-            a0 = c.args[0]
-            txt = unparse(a0)
-            if txt.startswith(f"{objp}."):
-                covered.add(txt[len(objp) + 1:])
-            else:
-                # loop variable: find the loop it comes from
-                root = txt.split(".")[0]
-                for lp in [l for s in br.body for l in ast.walk(s) if isinstance(l, ast.For)]:
-                    if unparse(lp.target) == root and unparse(lp.iter).startswith(f"{objp}."):
-                        coll = unparse(lp.iter)[len(objp) + 1:]
-                        rest = txt[len(root):].lstrip(".")
-                        if coll == "decorators" and rest == "value":
-                            covered.add("decorators")
-                        elif coll == "bases" and rest == "":
-                            covered.add("bases")
-                        elif coll == "parameters":
-                            covered.add(f"parameters.{rest}")
-                        else:
-                            covered.add(f"{coll}.{rest}".rstrip("."))
-        for f_ in sorted(fields):
-            ctx.ob("R2", f"reparent|{cname}.{f_}", f_ in covered,
-                   f"{cname}.{f_} is re-parented after reload" if f_ in covered else
-                   f"{cname}.{f_} holds expressions but is not re-parented by the decoder: names in it stop resolving after a reload", where(ap, br))
-    # the attach function is applied to every member and to the class itself
-    for lname in ("_load_module", "_load_class"):
-        lf = prog.function(f"{E}.{lname}")
-        calls = [c for c in calls_in(lf.node) if dotted(c.func) == "_attach_parent_to_exprs"]
-        in_loop = any(any(isinstance(a, ast.For) for a in _anc(c)) for c in calls)
-        ctx.ob("R2", f"applied|{lname}", in_loop, f"{lname} re-parents the expressions of every member it attaches", where(lf))
-
+    # (first version: the branches of _attach_parent_to_exprs were matched against the expression-typed fields of the constructors; a
+    # behaviour-preserving flattening of that function made it report, so it was retired: the scope table below decides every field on behaviour)
     # R2 table: the decoder (evaluated through json's own object hook, innermost dictionaries first) re-attaches each name to the scope the
     # visitor builds it in: bases / decorators / signatures of an object belong to the *enclosing* scope, attribute annotations and values to
     # the scope the attribute is defined in.
@@ -176,6 +111,21 @@ def run(prog: Program, ctx: Ctx) -> None:  # noqa: PLR0912,PLR0915
 
     it = Interp(prog, max_depth=40, max_steps=2_000_000)
     jd = prog.function(f"{E}.json_decoder")
+
+    want_fp = {"null": (None, None), "string": ("pkg/m.py", PurePosixPath("pkg/m.py")), "list": (["a/ns", "b/ns"], [PurePosixPath("a/ns"), PurePosixPath("b/ns")])}
+    for sh in FILEPATH_SHAPES:
+        if sh not in want_fp:
+            ctx.ob("R1", f"Module|filepath-shape|{sh}", False, f"Module.as_dict can write a filepath of a shape ({sh}) no decoder row covers", where(lm))
+            continue
+        given, want_v = want_fp[sh]
+        try:
+            mod_ = it.call(jd, {"kind": "module", "name": "m", "filepath": given, "labels": [], "members": {}})
+            got_v = mod_.attrs.get("_filepath") if isinstance(mod_, Obj) else mod_
+            okf = got_v == want_v
+            msg = f"reloaded as {got_v!r}"
+        except Raised as r:
+            okf, msg = False, f"the decoder raises {r.exc}"
+        ctx.ob("R1", f"Module|filepath-shape|{sh}", okf, f"Module.as_dict writes a {sh} filepath ({given!r}); {msg}, expected {want_v!r}", where(lm))
 
     def name(n_: str) -> dict:
         """An expression mentioning n_ three ways: bare inside a nested subscript, as the root of a dotted chain, and as a call argument."""
